@@ -282,3 +282,17 @@ long narrow_guard_good(const uint8_t* in, size_t in_size) {
     if (len + 16 > in_size) return -1;          /* tested on every path */
     return (long)in[4 + len - 1];
 }
+uint64_t signext_bad(const uint8_t* p) {
+    return p[0] | (p[1] << 8) | (p[2] << 16) | (p[3] << 24) | ((uint64_t)p[4] << 32);   /* p[3] >= 0x80 sets bits 32..63 */
+}
+uint64_t signext_good(const uint8_t* p) {
+    uint64_t lo = p[0] | (p[1] << 8) | (p[2] << 16);
+    return lo | ((uint64_t)p[3] << 24) | ((uint64_t)p[4] << 32);
+}
+long narrow_guard_local_bad(const uint8_t* in, size_t in_size) {
+    if (in_size < 4) return -1;
+    uint32_t len = ctl_le32(in);
+    size_t entry = 4 + len;                     /* wraps before it is widened */
+    if (in_size < entry) return -1;
+    return (long)entry;
+}
